@@ -457,6 +457,11 @@ func (c *Client) setL1Head(ctx context.Context) error {
 		BlockHash:   &maxFinalisedHead.L2BlockHash,
 		StateRoot:   &maxFinalisedHead.StateRoot,
 	}
+	// Finalised commits only ever move forward. A commit of an older Starknet block that is
+	// delivered late (after a newer one was already recorded) must not move the head backwards.
+	if recorded, err := c.l2Chain.L1Head(); err == nil && head.BlockNumber < recorded.BlockNumber {
+		return nil
+	}
 	if err := c.l2Chain.SetL1Head(head); err != nil {
 		return fmt.Errorf(
 			"setting l1 head for block %d and state root %s: %w",
